@@ -402,12 +402,12 @@ class Interp:
         sp = _SPECIAL.get(fn) if isinstance(fn, (types.BuiltinFunctionType, type)) else None
         if sp is not None:
             return sp(self, args, kwargs)
-        conc = all(deep_concrete(a) for a in args) and all(deep_concrete(v) for v in kwargs.values())
         try:
             return fn(*args, **kwargs)
         except _INTERNAL:
             raise
         except (TypeError, AttributeError) as e:
+            conc = all(deep_concrete(a) for a in args) and all(deep_concrete(v) for v in kwargs.values())
             if not conc:
                 raise Unsupported(f"native call {getattr(fn, '__qualname__', fn)} with symbolic "
                                   f"arguments failed: {type(e).__name__}: {e}")
